@@ -807,7 +807,12 @@ func (t *Term) sgr(ps [][]int) {
 				t.Ignored["SGR 11"]++
 			}
 		case n == 12:
-			t.Ignored["SGR 12"]++
+			// pcansi: smacs is SGR 12 (second alternate font, same CP437 glyph bytes)
+			if t.Q.AltFont {
+				t.altFontOn = true
+			} else {
+				t.Ignored["SGR 12"]++
+			}
 		case n == 21:
 			t.Pen.UL = 2
 		case n == 22:
